@@ -28,6 +28,7 @@ def _leaf(fn):
 
 
 def run(ctx, obs):
+    truncation_boundary(ctx, obs)
     from ..rules import order as _order
     _order.contracts(ctx, obs, ['util.matrix.indicator'])
     _order.report(ctx, obs, ['simulation.', 'util.matrix.'])
@@ -131,6 +132,30 @@ def same_signal(ctx, obs, rule='SAME'):
             if isinstance(root, ast.Name) and root.id in sig_vars:
                 obs.bad(rule, q, f'the signal `{root.id}` read in the loop is an unmodified make_signal result',
                         f'`{norm(n)[:80]}` writes into the signal inside the simulation loop', where(prog, f, n))
+    # an in-place update (`x += e`, `x[...] = e`) inside the loop of an object that was created BEFORE the loop - directly or through
+    # a plain alias `x = y` - accumulates over simulations and makes all returned datasets share one buffer
+    loop_nodes = {id(x) for x in ast.walk(lp)}
+    outer_defs = {i for i, d in r.defs.items() if id(d.node) not in loop_nodes and d.kind in ('assign', 'aug')}
+
+    def reaches_outer(def_ids, depth=0):
+        for i in def_ids:
+            d = r.defs[i]
+            if i in outer_defs:
+                return d
+            if depth < 4 and d.kind == 'assign' and isinstance(d.rhs, ast.Name):
+                hit = reaches_outer(r.load_defs.get(id(d.rhs), ()), depth + 1)
+                if hit is not None:
+                    return hit
+        return None
+    for i, d in r.defs.items():
+        if d.kind == 'aug' and id(d.node) in loop_nodes and isinstance(d.node, ast.AugAssign) and isinstance(d.node.target, ast.Name):
+            src = reaches_outer(r.aug_prev.get(i, ()))
+            con = f'`{norm(d.node)[:40]}` does not update an object created before the simulation loop'
+            if src is not None:
+                obs.bad(rule, q, con, f'`{d.var}` is (an alias of) `{norm(src.node)[:60]}` from before the loop: the in-place update '
+                        f'accumulates over simulations, and every dataset built from it shares the same array', where(prog, f, d.node))
+            else:
+                obs.ok(rule, q, con, '', where(prog, f, d.node))
     if not sig_vars or not nloads:
         raise AnalysisError('make_dataset: the variable holding the make_signal result is not read in the loop')
     args = {tuple(norm(a) for a in c.args) for c in calls}
@@ -298,3 +323,39 @@ def second_moment(ctx, obs, rule='ND'):
     et = ast.unparse(e).replace(' ', '')
     obs.soft('identity(SRC0)' in et and 'ones(SRC0)/SRC0' in et or 'eye(SRC0)' in et and '/SRC0' in et, 'ND', q2,
               'centering(n) = I - 1/n', f'`{ast.unparse(e)}`', '', where(prog, f2, f2.node))
+
+
+def truncation_boundary(ctx, obs, rule='BOUND'):
+    """make_signal: the exact-second-moment construction needs at least as many channels as conditions.  Only for FEWER channels the
+    code generates n_cond channels and truncates afterwards (which gives up exactness).  With n_channel == n_cond - the edge of the
+    property's premise - the truncation branch must not be taken: its guard has to be false at equality (a strict comparison)."""
+    prog = ctx.prog
+    q = S + 'make_signal'
+    f = prog.func(q)
+    size_names = {s.targets[0].id for s in f.node.body if isinstance(s, ast.Assign) and isinstance(s.targets[0], ast.Name)
+                  and isinstance(s.value, ast.Subscript) and isinstance(s.value.value, ast.Attribute) and s.value.value.attr == 'shape'}
+    params = set(f.params)
+    guards = [g for g in f.node.body if isinstance(g, ast.If) and isinstance(g.test, ast.Compare) and len(g.test.ops) == 1
+              and isinstance(g.test.left, ast.Name) and isinstance(g.test.comparators[0], ast.Name)
+              and {g.test.left.id, g.test.comparators[0].id} & size_names and {g.test.left.id, g.test.comparators[0].id} & params]
+    if not guards:
+        obs.unk(rule, q, 'the truncation branch is taken only for fewer channels than conditions', 'size comparison not found',
+                where(prog, f, f.node))
+        return
+    g = guards[0]
+    at_equality = isinstance(g.test.ops[0], (ast.GtE, ast.LtE, ast.Eq))
+    con = 'with as many channels as conditions the signal is generated in its final dimension (no truncation)'
+    if not at_equality:
+        obs.ok(rule, q, con, f'`{norm(g.test)}` is false for n_channel == n_cond', where(prog, f, g))
+        return
+    # the branch is taken at equality: harmless only if it generates exactly n_cond (= n_channel) channels there
+    size = next(iter({g.test.left.id, g.test.comparators[0].id} & size_names))
+    chan = next(iter({g.test.left.id, g.test.comparators[0].id} & params))
+    gen = [s_.value for s_ in g.body if isinstance(s_, ast.Assign) and isinstance(s_.targets[0], ast.Name) and s_.targets[0].id == chan]
+    same = bool(gen) and all(isinstance(v, ast.Name) and v.id in (size, chan) for v in gen)
+    if same:
+        obs.ok(rule, q, con, f'`{norm(g.test)}` holds at equality but the branch generates `{norm(gen[0])}` channels', where(prog, f, g))
+    else:
+        obs.bad(rule, q, con, f'`{norm(g.test)}` holds for n_channel == n_cond and the branch generates '
+                f'`{norm(gen[0]) if gen else "?"}` channels before truncating to n_channel: the truncated signal no longer has exactly the '
+                f'model\'s second moment', where(prog, f, g))
